@@ -36,9 +36,49 @@ CLAIMED = {
         ref='DESIGN.md section 5 C06'),
 }
 
+CLAIMED.update({
+    'C01': dict(
+        text='Deductive proof of the per-account pull limit: the account leaves give min(needed, max(0, balance + granted overdraft - amount this statement already queued from '
+             'the same account)) with that amount proved equal to the sum over the sender queue (alreadySent), @world / unbounded overdraft exempt; save never raises a balance; '
+             'each posting moves the cached balances by exactly its amount (getPostings step assertion).',
+        note='The statement/script level composition (floor invariant over the whole run, prefix form) is an argument over these contracts in DESIGN.md, not machine-checked.',
+        ref='DESIGN.md section 5 C01'),
+    'C07': dict(
+        text='Deductive proof of Reconcile as far as a contract expresses it: both stacks stay strictly positive (so a kept amount is consumed sender by sender, never negative or zero), '
+             'senders and receivers stay balanced, postings equal the non-kept receivers, kept never becomes a posting, inputs are not written.',
+        note='The exact first-come-first-served pairing order (which sender is paired with which receiver) is NOT proved: it needs a positional invariant over two interleaved prefix sums; see DESIGN.md.',
+        ref='DESIGN.md section 5 C07'),
+    'C08': dict(
+        text='Deductive proof of runSaveStatement against the closed formula of the property (whole-view postcondition: the saved pair changes as specified, every other pair is unchanged, '
+             'no posting, negative amount rejected, queues untouched) and of the up-front request of the saved pair.',
+        note='That later statements cannot move the saved amount follows from C01\'s leaf contracts over the lowered balance (paper step).',
+        ref='DESIGN.md section 5 C08'),
+    'C09': dict(
+        text='Deductive proof of the state transformer of a statement: getPostings applies each posting to exactly the two cells concerned and leaves other assets alone, runStatement resets the '
+             'queues before use, metadata setters override key by key and keep all other keys, save leaves the queues alone.',
+        note='The two-run equation itself is a corollary argued in DESIGN.md (fold over a concatenation), not machine-checked.',
+        ref='DESIGN.md section 5 C09'),
+    'C10': dict(
+        text='Deductive proof, under the stated store contract (A5), that the pre-scan requests every balance that matters (recursive predicate over the source tree, all node kinds), that '
+             '@world is never requested (precondition of the store call), that the query asks a superset of what is pending and unknown, that answers are merged without forgetting known '
+             'cells and coherently with the store\'s sheet, and that balance()/overdraft() read a requested cell.',
+        note='Assumed: the store answers from one fixed balance sheet and may omit zero entries / add extra ones (extern contract). The link between the pre-scan and the run-time reads (same expression, same variables) is a paper step.',
+        ref='DESIGN.md section 5 C10'),
+    'C11': dict(
+        text='Deductive proof of the write frames: RunProgram and RunWithFeatureFlags modify nothing that existed before the call (variables map, AST, every map and big integer handed out by the store); '
+             'the cache owns what it writes (cells and per-account maps are allocated by the run, never the store\'s); the feature flag is read only by overdraft().',
+        note='Thread interleavings are not explored: re-entrancy is the separation argument over these frames. Determinism of map iteration is not machine-checked.',
+        ref='DESIGN.md section 5 C11'),
+    'C12': dict(
+        text='Panic-freedom sweep of the interpreter (every nil dereference, index, type assertion, explicit panic, library precondition on every path of every function under contract, '
+             'under well-formed ASTs and arbitrary variables / store answers), typed-error contracts, result-xor-error for RunProgram, empty result on error for RunWithFeatureFlags, store errors surface wrapped.',
+        note='Well-formedness of the AST for error-free parses is assumption T3 about ANTLR.',
+        ref='DESIGN.md section 5 C12'),
+})
+
 NOT_APPLICABLE = {}
 
-PENDING = ['C01', 'C07', 'C08', 'C09', 'C10', 'C11', 'C12', 'C13', 'C14', 'C15', 'C16', 'C17', 'C18', 'C19', 'C20']
+PENDING = ['C13', 'C14', 'C15', 'C16', 'C17', 'C18', 'C19', 'C20']
 
 
 def main():
